@@ -78,7 +78,7 @@ def events_of(run, f):
     return ev
 
 
-def r03_1(run, model):
+def r03_1(run, model, stages=("typecheck", "matchc")):
     run.rule("R03.1", "stage gating: after a stage that produces diagnostics (type check; match compilation) no later stage and no Ok result is "
                       "reached without an `if <diagnostics>.has_errors() { return Err(..) }` gate in between")
     entries = [("compile", PL), ("check_package", SEP), ("build_package", SEP), ("link_cores", SEP)]
@@ -106,13 +106,13 @@ def r03_1(run, model):
                 run.ob("R03.1", f"{name}|{last_prod[1]} -> {e[2]}", False, site(rel, [e[1]]),
                        f"{e[2]} is reached after {last_prod[1]} without a has_errors() gate",
                        witness="an ill-typed program (or a non-exhaustive integer match) is passed on to later stages / reported as success")
-            elif k in ("matchc", "backend", "ok") and last_prod is None and any(x[0] in ("typecheck", "matchc") for x in ev if x[1] < e[1]):
+            elif k in ("matchc", "backend", "ok") and last_prod is None and any(x[0] in stages for x in ev if x[1] < e[1]):
                 n += 1
-                prev = [x for x in ev if x[1] < e[1] and x[0] in ("typecheck", "matchc")][-1]
+                prev = [x for x in ev if x[1] < e[1] and x[0] in stages][-1]
                 run.ob("R03.1", f"{name}|{prev[2]} -> {e[2]}", True, site(rel, [e[1]]), f"gate between {prev[2]} and {e[2]}")
-            if k in ("typecheck", "matchc"):
+            if k in stages:
                 last_prod = (k, e[2], set(e[3]) if len(e) > 3 else set())
-        if name == "link_cores":
+        if name == "link_cores" and "typecheck" in stages:
             # duplicate-impl diagnostics are gated before the back end
             g = [e for e in ev if e[0] == "gate"]
             b = [e for e in ev if e[0] == "backend"]
@@ -122,7 +122,9 @@ def r03_1(run, model):
                    "a has_errors() gate precedes mono" if ok else "no gate before the back end")
         if not any(k in kinds for k in ("typecheck", "backend", "matchc")):
             raise AnalysisIncomplete(f"{name}: no stage calls recognised")
-    run.floor("gate obligations", n, 6)
+    run.floor("gate obligations", n, 6 if "typecheck" in stages else 2)
+    if "typecheck" not in stages:
+        return
     # parse / lower gates
     # name-resolution diagnostics join the typer diagnostics wherever a package is type-checked
     m = 0
